@@ -104,6 +104,23 @@ def check_expansion(ctx, rule="C19", only=None, default_tolerance_only=False):
     t = lp.test
     rest = None
     two_sided = False
+    bound_ok = True
+    if isinstance(t, ast.Compare) and len(t.ops) == 1 and isinstance(t.ops[0], (ast.Gt, ast.GtE)) and A.norm(t.comparators[0]) != tol:
+        # the remainder is compared with something derived from the tolerance: it must not exceed the tolerance itself
+        # (the remainder is in units of pi, as is the documented tolerance)
+        bexpr = A.expand(t.comparators[0], A.single_defs(fn))
+        try:
+            for probe in (0.5, 1e-4, 1e-9):
+                v = G.peval(bexpr, {tol: probe, "np.pi": math.pi, "math.pi": math.pi, "pi": math.pi})
+                if not isinstance(v, (int, float)) or v > probe * (1 + 1e-12):
+                    bound_ok = False
+        except Unknown as ex_:
+            ctx.error(R("G"), f"loop bound `{src(t.comparators[0])}` cannot be evaluated ({ex_})")
+            return
+        ctx.check(R("G"), "get_angle_spec_from_float:loop-runs-until-the-remainder-is-within-the-tolerance", bound_ok,
+                  f"the expansion stops as soon as the remainder is below `{src(bexpr)}`, which is larger than the tolerance `{tol}` the function documents "
+                  "(remainder and tolerance are both in units of pi): the returned steps can miss the angle by more than the tolerance", repo.loc(m, lp))
+        t = ast.Compare(left=t.left, ops=t.ops, comparators=[ast.Name(id=tol, ctx=ast.Load())])
     if isinstance(t, ast.Compare) and len(t.ops) == 1 and isinstance(t.ops[0], (ast.Gt, ast.GtE)) and A.norm(t.comparators[0]) == tol:
         if isinstance(t.left, ast.Name):
             rest = t.left.id
@@ -225,20 +242,30 @@ def check_expansion(ctx, rule="C19", only=None, default_tolerance_only=False):
             detail = "simplification loop not of the modelled shape"
             if len(inner_while) == 1:
                 w = inner_while[0]
-                # while (a % 2) == 0: a, b = (int(a / 2) | a // 2, b - 1)
+                # while (a % 2) == 0 [and b > 0]: a, b = (int(a / 2) | a // 2, b - 1)
                 tt = w.test
                 a = None
-                if isinstance(tt, ast.Compare) and isinstance(tt.ops[0], ast.Eq) and _is_const(ev, m, tt.comparators[0], 0) and isinstance(tt.left, ast.BinOp) and isinstance(tt.left.op, ast.Mod) \
-                        and _is_const(ev, m, tt.left.right, 2) and isinstance(tt.left.left, ast.Name):
-                    a = tt.left.left.id
+                for x in ast.walk(tt):
+                    if isinstance(x, ast.BinOp) and isinstance(x.op, ast.Mod) and _is_const(ev, m, x.right, 2) and isinstance(x.left, ast.Name):
+                        a = x.left.id
                 upd = [st for st in w.body if isinstance(st, ast.Assign)]
                 if a and len(upd) == 1 and isinstance(upd[0].targets[0], ast.Tuple) and isinstance(upd[0].value, ast.Tuple) and len(upd[0].targets[0].elts) == 2:
                     ta, tb = [A.norm(x) for x in upd[0].targets[0].elts]
                     va, vb = upd[0].value.elts
                     half = A.norm(_strip_int(va)) in (f"{a}/2", f"{a}//2")
                     dec = A.norm(vb) == f"{tb}-1"
-                    ok_s = ta == a and half and dec
+                    # the loop runs exactly while n is even and the exponent can still be decremented without going negative
+                    try:
+                        runs = {(av, dv): bool(G.peval(tt, {a: av, tb: dv})) for av in (2, 3, 4, 128) for dv in (0, 1, 5)}
+                        even_only = all(not r for (av, dv), r in runs.items() if av % 2 == 1) and all(r for (av, dv), r in runs.items() if av % 2 == 0 and dv >= 1)
+                        nonneg = all(not r for (av, dv), r in runs.items() if dv == 0)
+                    except Unknown:
+                        even_only = nonneg = False
+                    ok_s = ta == a and half and dec and even_only
                     detail = f"`{src(upd[0])}` under `{src(tt)}`"
+                    ctx.check(R("S"), "get_angle_spec_from_float:simplification-keeps-the-exponent-non-negative", nonneg,
+                              f"the simplification loop `while {src(tt)}` can decrement the exponent below 0: for an angle within float rounding of a full turn the remainder is exactly 2.0, "
+                              "the step (128, 6) simplifies to (1, -1), and a negative exponent cannot be encoded", repo.loc(m, w))
                     # initialised from the step and written back to the same slot
                     init = [st for st in f.body if isinstance(st, ast.Assign) and isinstance(st.targets[0], ast.Tuple) and [A.norm(x) for x in st.targets[0].elts] == [a, tb]]
                     wb = [st for st in f.body if isinstance(st, ast.Assign) and isinstance(st.targets[0], ast.Subscript) and A.norm(st.value) == f"({a},{tb})"]
@@ -369,6 +396,7 @@ SP_FILE = "netqasm/sdk/toolbox/state_prep.py"
 BF = "netqasm/sdk/builder.py"
 SEEDS = [
     dict(id="c19-round-to-nearest", file=SP_FILE, expect="C19.G", construct="step-never-overshoots", old="        n = int(np.floor(rest * 2**d))", new="        n = int(np.round(rest * 2**d))"),
+    dict(id="c19-tolerance-scaled-by-pi", file=SP_FILE, expect="C19.G", construct="within-the-tolerance", old="    while rest > tol:", new="    tol_rest = tol * np.pi\n    while rest > tol_rest:"),
     dict(id="c19-ceil-numerator", file=SP_FILE, expect="C19.G", construct="step-never-overshoots", old="        n = int(np.floor(rest * 2**d))", new="        n = int(np.ceil(rest * 2**d))"),
     dict(id="c19-subtract-other-step", file=SP_FILE, expect="C19.G", construct="recorded-step-is-the-subtracted-step", old="        rest -= n / 2**d", new="        rest -= n / 2 ** (d + 1)"),
     dict(id="c19-ceil-exponent", file=SP_FILE, expect="C19.B", construct="exponent-is-floor", old="        d = int(np.floor(np.log2(n_max / rest)))", new="        d = int(np.ceil(np.log2(n_max / rest)))"),
@@ -376,6 +404,7 @@ SEEDS = [
     dict(id="c19-no-assert", file=SP_FILE, expect="C19.B", construct="numerator-checked", old="        assert n <= n_max, \"Something went wrong, n is bigger than n_max\"\n", new=""),
     dict(id="c19-no-modulo", file=SP_FILE, expect="C19.M", construct="modulo-a-full-turn", old="    angle %= 2 * np.pi\n", new=""),
     dict(id="c19-units", file=SP_FILE, expect="C19.M", construct="units-of-pi", old="    rest = angle / np.pi\n", new="    rest = angle / (2 * np.pi)\n"),
+    dict(id="c19-simplify-unbounded", file=SP_FILE, expect="C19.S", construct="exponent-non-negative", old="        while (n_new % 2) == 0 and d_new > 0:", new="        while (n_new % 2) == 0:"),
     dict(id="c19-simplify-d-only", file=SP_FILE, expect="C19.S", construct="simplification", old="            n_new, d_new = (int(n_new / 2), d_new - 1)", new="            n_new, d_new = (int(n_new / 2), d_new - 2)"),
     dict(id="c19-filter-below-default-tolerance", file=SP_FILE, expect="C19.F", construct="default-tolerance", old="        nds[i] = (n_new, d_new)\n    return nds\n", new="        nds[i] = (n_new, d_new)\n    nds = [(n, d) for (n, d) in nds if d < 16]\n    return nds\n"),
     dict(id="c19-filter-32-again", file=SP_FILE, expect="C19.F", construct="tolerance-1e-09", old="        nds[i] = (n_new, d_new)\n    return nds\n", new="        nds[i] = (n_new, d_new)\n    nds = [(n, d) for (n, d) in nds if d < 32]\n    return nds\n"),
@@ -385,6 +414,7 @@ SEEDS = [
          old="            instruction=GenericInstr.ROT_Y,\n            virtual_qubit_id=self.qubit_id,\n            n=n,\n            d=d,\n            angle=angle,", new="            instruction=GenericInstr.ROT_Y,\n            virtual_qubit_id=self.qubit_id,\n            n=n,\n            d=d,"),
 ]
 BENIGN = [
+    dict(id="c19-benign-stricter-loop-bound", file=SP_FILE, old="    while rest > tol:", new="    half = tol / 2\n    while rest > half:"),
     dict(id="c19-benign-filter-beyond-field-width", file=SP_FILE, old="        nds[i] = (n_new, d_new)\n    return nds\n", new="        nds[i] = (n_new, d_new)\n    nds = [(n, d) for (n, d) in nds if d < 256]\n    return nds\n"),
     dict(id="c19-benign-floor-div", file=SP_FILE, old="        n = int(np.floor(rest * 2**d))", new="        n = int(rest * 2**d // 1)"),
     dict(id="c19-benign-two-sided-guard-with-round", edits=[(SP_FILE, "    while rest > tol:", "    while abs(rest) > tol:")]),
